@@ -38,11 +38,14 @@ ASSUMPTIONS = [
 
 MUTANTS = ["+1", " 1", "1 ", "1_0", "01", "00", "１", "-0", "-", "", "nope", "0", "1", "2", "3", "5",
            "1e0", "1.0", "é", "a/b", "~", "a", "-1", "-2", "#0", "#1", "#a", "~a", "#", "#x", "#-1",
-           "9007199254740991", "9007199254740992", "-9007199254740992", "1" * 30]
+           "9007199254740991", "9007199254740992", "-9007199254740992", "1" * 30,
+           "1１", "1٠", "-1１", "１1", "1２3", "0１", "1\u0660", "2\u0967"]
 
 
 def _docs(ctx):
     docs = [d for d in G.structured_docs() if not isinstance(d, str)]
+    docs.append(list(range(13)))
+    docs.append({"11": "ascii", "1１": "mixed", "10": "ten", "1٠": "arabic-indic", "a": list(range(12))})
     n = 150 if ctx.tier == "quick" else 3000
     for _ in range(n):
         d = G.random_doc(ctx.rng, max_depth=4)
